@@ -55,6 +55,9 @@ type c09State struct {
 	Name     string
 	Notebook []byte // nil = missing
 	History  []byte // nil = missing
+	// how the files sit in the file system: "" plain, "hard-linked" (a second name elsewhere, as a dotfiles checkout or a backup
+	// tool makes), "symlinked" (the configuration path is a relative symbolic link into a sibling directory)
+	Layout string
 }
 
 func c09Notebook(n int) []byte {
@@ -100,6 +103,28 @@ func (s c09State) prepare(h *Home) {
 	if s.History != nil {
 		os.MkdirAll(filepath.Dir(h.History()), 0o755)
 		os.WriteFile(h.History(), s.History, 0o644)
+	}
+	switch s.Layout {
+	case "hard-linked":
+		os.MkdirAll(filepath.Join(h.Dir, "other-names"), 0o755)
+		if s.Notebook != nil {
+			os.Link(h.Personal(), filepath.Join(h.Dir, "other-names", "notebook"))
+		}
+		if s.History != nil {
+			os.Link(h.History(), filepath.Join(h.Dir, "other-names", "history"))
+		}
+	case "symlinked":
+		store := filepath.Join(h.Dir, "dotfiles", "wtf")
+		os.MkdirAll(store, 0o755)
+		for _, p := range []string{h.Personal(), h.History()} {
+			if b, err := os.ReadFile(p); err == nil {
+				real := filepath.Join(store, filepath.Base(p))
+				os.WriteFile(real, b, 0o644)
+				os.Remove(p)
+				rel, _ := filepath.Rel(filepath.Dir(p), real)
+				os.Symlink(rel, p)
+			}
+		}
 	}
 }
 
@@ -179,15 +204,17 @@ func engineCrashWrite(ctx *Ctx) {
 			"saved-tool-0 --flag value0 | sort", "my irreplaceable command number 0 with some longer description text"}, "notebook", "saved successfully"},
 	}
 	states := []c09State{
-		{"notebook-missing/history-missing", nil, nil},
-		{"notebook-300B/history-2", c09Notebook(2), c09History(2)},
-		{"notebook-5KB/history-100", c09Notebook(ctx.Pick(25, 25)), c09History(100)},
+		{Name: "notebook-missing/history-missing"},
+		{Name: "notebook-300B/history-2", Notebook: c09Notebook(2), History: c09History(2)},
+		{Name: "notebook-5KB/history-100", Notebook: c09Notebook(ctx.Pick(25, 25)), History: c09History(100)},
 	}
 	if ctx.Thorough {
-		states = append(states, c09State{"notebook-20KB/history-30", c09Notebook(100), c09History(30)})
+		states = append(states, c09State{Name: "notebook-20KB/history-30", Notebook: c09Notebook(100), History: c09History(30)})
 	}
+	states = append(states, c09State{Name: "notebook-5KB/history-100/hard-linked", Notebook: c09Notebook(25), History: c09History(100), Layout: "hard-linked"},
+		c09State{Name: "notebook-5KB/history-100/symlinked", Notebook: c09Notebook(25), History: c09History(100), Layout: "symlinked"})
 	// a notebook of several hundred KiB (years of use): whatever is done differently for large files is reached only here
-	states = append(states, c09State{"notebook-330KB/history-2", c09Notebook(1500), c09History(2)})
+	states = append(states, c09State{Name: "notebook-330KB/history-2", Notebook: c09Notebook(1500), History: c09History(2)})
 	caseNo := 0
 	mine := func() bool { caseNo++; return caseNo%ctx.NShards == ctx.Shard }
 	for _, op := range ops {
@@ -207,6 +234,13 @@ func engineCrashWrite(ctx *Ctx) {
 					Witness: map[string]interface{}{"op": op.Name, "state": st.Name, "stdout": vlib.Trunc(ff.Stdout, 600), "stderr": vlib.Trunc(ff.Stderr, 600)}})
 				continue
 			}
+			if op.OkMsg != "" && old != nil && bytes.Equal(newB, old) {
+				ctx.R.Violate(vlib.Violation{Property: "C09", Clause: "success-reported-but-not-saved", Path: op.Name + "/fault-free",
+					Detail:  fmt.Sprintf("without any fault %s printed its success message, yet the notebook reached through its path is unchanged (%d bytes)", op.Name, len(old)),
+					Witness: map[string]interface{}{"op": op.Name, "state": st.Name, "stdout": vlib.Trunc(ff.Stdout, 400)}})
+				continue
+			}
+			ctx.R.Path("layout:"+map[string]string{"": "plain"}[st.Layout]+st.Layout, 1)
 			oldKey, newKey := "", ""
 			if op.Target == "history" {
 				newKey, _ = c09HistKey(newB)
